@@ -103,7 +103,8 @@ def value_classes(param, name, two_d):
 def scalar_in_scope(param, name, two_d, module=None):
     """Is (method, parameter) inside the statement?  half_window only for morphological/smoothing."""
     if param == 'half_window':
-        return (module or method_module(name, two_d)) in HW_MODULES
+        # pspline_mpls lives in spline.py but is the P-spline version of the morphological mpls
+        return (module or method_module(name, two_d)) in HW_MODULES or name == 'pspline_mpls'
     return param in SCALAR_PARAMS
 
 
@@ -139,7 +140,7 @@ def positions(shape, which):
             'first_row_last_col': (0, n - 1), 'edge_row': (m - 1, n // 2)}[which]
 
 
-def build_tasks(seed, tier='quick'):
+def build_tasks(seed, tier='quick', valid_comps=None):
     """The full finite grid (method x parameter x value class, data/weights x non-finite x position,
     wrong lengths, banded_solver, unknown method), 1-D and 2-D."""
     tasks = []
@@ -167,6 +168,25 @@ def build_tasks(seed, tier='quick'):
             def vc(text, xo, pos=None):
                 text = text if xo == 'sorted' else f'{text}:x={xo}'
                 return text if pos is None else f'{text}@{pos}'
+            # (a2) cross: one invalid scalar parameter x one OTHER optional argument present with a valid value
+            comps = companions(name, two_d, params)
+            for par in params:
+                if par not in SCALAR_PARAMS or not scalar_in_scope(par, name, two_d, module):
+                    continue
+                if name == 'custom_bc' and par in ('lam', 'diff_order'):
+                    continue
+                for cls, val, claimed in value_classes(par, name, two_d):
+                    if not claimed or (name == 'rubberband' and par == 'lam' and cls in ('zero', 'zero_len1_array', 'bool_false')):
+                        continue
+                    for cname, ckw in comps:
+                        if valid_comps is not None and (dim, name, cname) not in valid_comps:
+                            continue      # the companion alone is not a valid call
+                        if name == 'dietrich' and par == 'poly_order' and cname == 'variant:max_iter=0':
+                            continue      # documented: max_iter=0 skips the polynomial fit, poly_order is unused
+                        if par in ckw or (cname.startswith('variant:') and cname.split(':')[1].split('=')[0] == par):
+                            continue
+                        tasks.append(dict(base, kind='scalar_cross', param=par, vclass=f'{cls}+{cname}',
+                                          value=_enc(val), comp=cname, comp_kw=_enc_kw(ckw), claimed=True))
             # (b) non-finite data
             poss = ('first', 'interior', 'last') + (('first_row_last_col', 'edge_row') if two_d else ())
             for bad in ('nan', 'pos_inf', 'neg_inf'):
@@ -267,11 +287,67 @@ def build_tasks(seed, tier='quick'):
     return tasks
 
 
+def companions(name, two_d, params):
+    """[(label, kwargs)]: optional arguments given with a VALID non-default value, one at a time; the
+    special kwargs '__weights__' / '__alpha__' / '__fitter__' are resolved at call time."""
+    out = []
+    if 'weights' in params:
+        out.append(('weights', {'__weights__': True}))
+    if 'alpha' in params and name in ('aspls', 'pspline_aspls'):
+        out.append(('alpha', {'__alpha__': True}))
+    if 'pad_kwargs' in params:
+        out.append(('pad_kwargs', {'pad_kwargs': {'mode': 'reflect'}}))
+    out.append(('no_x', {'__fitter__': 'no_x'}))
+    out.append(('unsorted_x', {'__fitter__': 'unsorted'}))
+    seen = set()
+    for var in M.param_variants(name, two_d):
+        (k, v), = var.items()
+        if k not in params:
+            continue
+        label = f'variant:{k}={v!r}'
+        if label in seen:
+            continue
+        seen.add(label)
+        out.append((label, {k: v}))
+    return out
+
+
+def companion_probes(seed):
+    """tasks that run each companion ALONE (everything else valid); only those that return are used."""
+    tasks = []
+    for two_d in (False, True):
+        dim = '2d' if two_d else '1d'
+        for name in M.method_names(two_d):
+            module = method_module(name, two_d)
+            params = method_params(name, two_d)
+            for cname, ckw in companions(name, two_d, params):
+                tasks.append(dict(dim=dim, method=name, module=module, seed=seed, kind='scalar_cross', param=None,
+                                  vclass=f'probe+{cname}', comp=cname, comp_kw=_enc_kw(ckw), claimed=False,
+                                  probe=True))
+    for i, t in enumerate(tasks):
+        t['id'] = i
+    return tasks
+
+
+def valid_companions(seed):
+    probes = companion_probes(seed)
+    res = run_all(probes)
+    return {(t['dim'], t['method'], t['comp']) for t in probes if res[t['id']][0] == 'returned'}, len(probes)
+
+
+def _enc_kw(kw):
+    return {k: _enc(v) for k, v in kw.items()}
+
+
 def _enc(v):
     """JSON-able encoding of a parameter value."""
     if isinstance(v, np.ndarray):
         return {'array': [_enc(e) for e in v.tolist()]}
-    if isinstance(v, (list, tuple)):
+    if isinstance(v, dict):
+        return {'dict': {k: _enc(e) for k, e in v.items()}}
+    if isinstance(v, tuple):
+        return {'tuple': [_enc(e) for e in v]}
+    if isinstance(v, list):
         return {'list': [_enc(e) for e in v]}
     if isinstance(v, float) and (math.isnan(v) or math.isinf(v)):
         return {'float': repr(v)}
@@ -284,6 +360,10 @@ def _dec(v):
             return np.array([_dec(e) for e in v['array']])
         if 'list' in v:
             return [_dec(e) for e in v['list']]
+        if 'tuple' in v:
+            return tuple(_dec(e) for e in v['tuple'])
+        if 'dict' in v:
+            return {k: _dec(e) for k, e in v['dict'].items()}
         if 'float' in v:
             return float(v['float'])
     return v
@@ -298,7 +378,7 @@ def _call(name, two_d, x, z, y, fitter=None, **extra):
     if name == 'interp_pts':
         from pybaselines import Baseline
         pts = np.array([[x[0], 1.0], [x[len(x) // 2], 2.0], [x[-1], 1.5]])
-        return Baseline(x).interp_pts(y, baseline_points=pts, **extra)
+        return (fitter if fitter is not None else Baseline(x)).interp_pts(y, baseline_points=pts, **extra)
     return M.run_1d(name, x, y, fitter=fitter, **extra)
 
 
@@ -338,6 +418,33 @@ def run_task(t):
                 if name in ('rubberband', 'custom_bc') and t['param'] == 'diff_order':
                     extra['lam'] = 1e3    # diff_order is only used when the optional smoothing is requested
                 _call(name, two_d, x, z, y, **extra)
+            elif kind == 'scalar_cross':
+                extra = {} if t.get('probe') else {t['param']: _dec(t['value'])}
+                if name in ('rubberband',) and t['param'] == 'diff_order':
+                    extra['lam'] = 1e3
+                xx, zz, yy = x, z, y
+                fitter = None
+                for k, v in t['comp_kw'].items():
+                    v = _dec(v)
+                    if k == '__weights__':
+                        extra['weights'] = np.ones_like(y)
+                    elif k == '__alpha__':
+                        extra['alpha'] = np.ones_like(y)
+                    elif k == '__fitter__':
+                        if v == 'no_x':
+                            fitter = Baseline2D() if two_d else Baseline()
+                        else:
+                            prng = np.random.default_rng(t['seed'] + 11)
+                            px = prng.permutation(len(x))
+                            xx, yy = x[px], y[px]
+                            if two_d:
+                                pz = prng.permutation(len(z))
+                                zz, yy = z[pz], yy[:, pz]
+                    else:
+                        extra[k] = v
+                if fitter is not None and name == 'interp_pts':
+                    fitter = None      # interp_pts needs x-values
+                _call(name, two_d, xx, zz, yy, fitter=fitter, **extra)
             elif kind == 'data_nonfinite':
                 yy = y.copy()
                 yy[positions(yy.shape, t['pos'])] = BADVAL[t['bad']]
